@@ -9,21 +9,24 @@ META = {
     "text": ("Lean theorems Hv.C17.no_lost_wakeup (with the vigil decrement under the condition variable's mutex no schedule of any length "
              "reaches a sleeping waiter with zero vigils and no broadcast pending), holds_good (plus: once operations have finished some "
              "waiter can step and its check returns; the drain owner's cancel is permanent and WaitForGracefulClose can return), "
-             "defer_balance (every extracted gateway handler shape returns the safeops and vigil counters to their entry value at every "
-             "exit point, panics included), refutes_current (closed witness check, dec, broadcast, add, park for the bare atomic "
+             "defer_balance / defer_balance_autodestroy (every extracted gateway handler shape returns the safeops and vigil counters to their entry value at every exit point, panics included; when a last-key delete auto-destroys the swamp inside the handler the safeops counter is still exact and the vigil counter ends one BELOW entry on the dead instance — the method's own CeaseVigil plus the deferred one — never above), refutes_destroyHoldingVigil (a Destroy() without the preceding CeaseVigil waits for its own caller), refutes_current (closed witness check, dec, broadcast, add, park for the bare atomic "
              "decrement) and refutes_looseCheck; classify_sound ties the decision to 9 facts from vigil.go / swamp.go / safeops.go and the "
              "57 handler shapes of app/server/gateway; the model is run against the real vigil under forced schedules (hooks vigil.dec, "
              "vigil.checked) and a watchdog observes the lost wake-up as non-termination."),
     "note": ("Trusted: Lean kernel; extract/c17.go; harness/c17.go + app/verifhook + vigil.VerifCount/VerifLockFree; the sync.Cond model "
              "(Wait = ticket under L, unlock+sleep, re-lock; Broadcast wakes every ticket taken so far — as in sync/cond.go and "
              "runtime/sema.go notifyList); contexts are latches; safeops.WaitForUnlock and hydra's graceful stop poll, so they have no "
-             "wake-up to lose; operations are anonymous in the model (a CeaseVigil is enabled only after a BeginVigil)."),
+             "wake-up to lose; operations are anonymous in the model (a CeaseVigil is enabled only after a BeginVigil); the extra CeaseVigil after an auto-destroy (counter -1, confirmed on the real code by the `rpcs` op: vigdead=-1) happens on an instance whose only waiter, Destroy's drain, has already returned — it cannot block a wait, so it is not a C17 violation (it matters to C16)."),
     "design_ref": "§8 C17, Appendix E (vigil)",
 }
 
 FINDINGS = {
     "C17-lost-wakeup": "CeaseVigil decrements the vigil counter without holding the condition variable's mutex: a decrement+broadcast that "
                        "falls between a waiter's check and its cond.Wait is lost and WaitForActiveVigilsClosed (Destroy's drain) sleeps forever",
+    "C17-destroy-holding-own-vigil": "an auto-destroy site calls Destroy() without giving the caller's own vigil back first: the drain waits "
+                                     "for the caller itself",
+    "C17-close-never-completes": "Close() can return after closing=1 without cancelling the swamp's context: WaitForGracefulClose (and "
+                                 "every SummonSwamp of that swamp) waits for a close that never completes",
     "C17-wait-never-returns": "HasActiveVigils is true for a zero counter: WaitForActiveVigilsClosed never returns",
 }
 
@@ -35,6 +38,11 @@ def spec_violated(rep):
             return "after `%s` waiter %s is still asleep although the vigil counter is 0 and no CeaseVigil is in flight (%s)" % (op, w[1], line)
         if "unwoken" in line:
             return "`%s`: a broadcast with a zero/positive counter did not wake a sleeping waiter (%s)" % (op, line)
+        if line.startswith("closefail") and ("stuck" in line or "hangs" in line):
+            return ("Close() returned but the close never completes: WaitForGracefulClose got no answer within its budget after the "
+                    "chronicler's final Close() failed (%s)" % line)
+        if line.startswith("rpcs") and "vigdead=hang" in line:
+            return "a Delete of the last key never returned: the auto-destroy drain waits for the handler's own vigil (%s)" % line
         if line.startswith("rpcs") and ("sys=true" in line or "vig=true" in line):
             return "after the RPCs a counter did not return to zero (%s)" % line
         for bad in ("unexpected-", "lock-stuck"):
@@ -48,7 +56,7 @@ def run(ctx):
     K.lean_verdict(ctx)
     corrs = []
     if K.build_hx(ctx) and K.build_drv(ctx):
-        args = ["%s=%s" % (k, facts.get(k, "unknown")) for k in ("decrementUnderCondLock", "checkStrict")]
+        args = ["%s=%s" % (k, facts.get(k, "unknown")) for k in ("decrementUnderCondLock", "checkStrict", "closeCancels")]
         c = K.correspondence(ctx, "C17", args)
         corrs.append(("C17", args, c))
     else:
